@@ -38,8 +38,9 @@ F_CONC = F_SYM + [
     # a stateful transform applied to the multi-column (dict-valued) output of another one: one state per sub-column
     "scale(bs(a, df=4)) + A", "center(cr(b, df=3))", "scale(poly(a, 2)):A",
     # bounds narrower than the training data, every non-raising extrapolation mode: out-of-bounds rows exist at fit time AND on replay
-    "cr(a, df=4, lower_bound=1, upper_bound=6.5, extrapolation='clip')", "cc(b, df=3, lower_bound=1, upper_bound=6, extrapolation='na') + A",
-    "cr(b, df=3, lower_bound=0.5, upper_bound=6, extrapolation='zero'):A", "bs(a, df=4, lower_bound=1, upper_bound=7, extrapolation='na')",
+    # ('na' is left out here: it turns training rows into null rows that are dropped, which the row maps of this check do not model)
+    "cr(a, df=4, lower_bound=1, upper_bound=6.5, extrapolation='clip')", "cc(b, df=3, lower_bound=1, upper_bound=6, extrapolation='clip') + A",
+    "cr(b, df=3, lower_bound=0.5, upper_bound=6, extrapolation='zero'):A", "bs(a, df=4, lower_bound=1, upper_bound=7, extrapolation='clip')",
     "bs(b, df=3, degree=2, lower_bound=0.5, upper_bound=6.75, extrapolation='zero')", "cr(a, df=3, extrapolation='clip') + cc(b, df=3, extrapolation='clip')",
 ]
 
